@@ -225,8 +225,11 @@ Join(ss, sep) ==
 (* V(T, m): variant m of type T as [lit |-> Rust initialiser, val |-> abstract value].           *)
 (* shape = m mod |Shapes|; the inner elements take the variants r + i + CtorIdx of the argument   *)
 (* type (r = m div |Shapes|), so boundary values rotate through positions and constructors.      *)
-RECURSIVE V(_, _)
-V(T, m) ==
+(* every abstract value node carries `c`, the constructor (or leaf) of the type it belongs to, so that a  *)
+(* difference can be attributed to the exact constructor it sits at                                          *)
+RECURSIVE V(_, _), V0(_, _)
+V(T, m) == LET x == V0(T, m) IN [lit |-> x.lit, val |-> [c |-> T.c] @@ x.val]
+V0(T, m) ==
   IF IsLeaf(T) THEN LET b == B(T.c) IN b[(m % Len(b)) + 1]
   ELSE
     LET c  == T.c
